@@ -2,6 +2,7 @@ import BoltonsVerif.C17.Proofs2
 import BoltonsVerif.C17.Readers
 import BoltonsVerif.C17.ArgsProofs
 import BoltonsVerif.C17.HeapProofs
+import BoltonsVerif.C17.Lifetime
 /-
 C17 — property theorems (statements + short derivations from `Proofs.lean`, and
 non-vacuity examples).
@@ -786,5 +787,99 @@ example : (FD.ofPairs [(1, .h 3), (2, .u 0)]).hash.2 = none := by decide
 example : (((FD.ofPairs [(2, .h 100), (1, .h 3)]).hashIn id).1.rebuild.hashIn (fun n => 7 * n + 3)).2
     = some [(10, 24), (17, 703)] := by decide
 example : ((FD.ofPairs [(1, .h 3)]).run [.hash, .mutate .clear, .mutate (.setitem 2 (.h 2)), .hash]).items = [(1, .h 3)] := by decide
+
+/-! ## object lifetime (round 5): only a DERIVED object is kept alive -/
+
+/-- `x = Cls(...)` for one of the two paired classes: the reference kinds come from the regenerated table -/
+def lifeAlloc (cls : String) (r : Nat) : LCmd := .alloc (refsOf cls).1 (refsOf cls).2 r
+
+/-- the regenerated table (read off fresh instances of the tree under test): in both classes the object refers
+    strongly to its `.inv` and the `.inv` object refers strongly back - a `weakref.ref` on either side turns this red -/
+theorem life_generated_refs_strong :
+    (lifeAlloc "OneToOne" 0).strongOnly = true ∧ (lifeAlloc "ManyToMany" 0).strongOnly = true := by decide
+
+theorem lifeAlloc_strong (cls : String) (h : cls = "OneToOne" ∨ cls = "ManyToMany") (r : Nat) :
+    (lifeAlloc cls r).strongOnly = true := by
+  rcases h with rfl | rfl
+  · exact life_generated_refs_strong.1
+  · exact life_generated_refs_strong.2
+
+/-- MAIN (lifetime): after ANY history of constructor calls, references taken through `.inv` chains and
+    references let go of (each followed by a collection of everything unreachable), every reference the caller
+    still holds is to a live half whose `.inv` is the live other half of the SAME instance, which refers back:
+    what can be reached from a held half includes its peer, whoever else stopped holding it -/
+theorem life_held_half_reaches_peer (cmds : List LCmd) (st : Life)
+    (hc : ∀ c ∈ cmds, c.strongOnly = true) (h : lifeRun Life.empty cmds = some st) (a : Nat) (ha : a ∈ st.roots) :
+    ∃ x y, st.get a = some x ∧ st.get x.peer = some y ∧ y.peer = a ∧ y.reg = x.reg ∧ y.side = !x.side := by
+  obtain ⟨x, y, e1, e2, e3, e4, e5, _⟩ := good_run cmds _ st good_empty hc h a ha
+  exact ⟨x, y, e1, e2, e3, e4, e5⟩
+
+/-- … so `held.inv.inv is held`, and every `.inv` chain from a held reference ends on a live object (never on
+    a freed one: `idx.inv` is never None) that is a half of the same instance, on the side the parity says -/
+theorem life_inv_chain (cmds : List LCmd) (st : Life)
+    (hc : ∀ c ∈ cmds, c.strongOnly = true) (h : lifeRun Life.empty cmds = some st) (a : Nat) (ha : a ∈ st.roots) :
+    follow st.objs a 2 = some a ∧ ∀ n, ∃ b, follow st.objs a n = some b ∧ Paired st.objs b :=
+  have g := good_run cmds _ st good_empty hc h a ha
+  ⟨follow_two g, fun n => by
+    obtain ⟨b, hb⟩ := follow_of_paired n a g
+    exact ⟨b, hb, paired_follow n a b g hb⟩⟩
+
+/-- … and taking a reference through any `.inv` chain from a held one never fails -/
+theorem life_hold_succeeds (cmds : List LCmd) (st : Life)
+    (hc : ∀ c ∈ cmds, c.strongOnly = true) (h : lifeRun Life.empty cmds = some st) (a : Nat) (ha : a ∈ st.roots)
+    (n : Nat) : ∃ st', lifeCmd st (.hold a n) = some st' := by
+  obtain ⟨b, hb⟩ := follow_of_paired n a (good_run cmds _ st good_empty hc h a ha)
+  exact ⟨⟨st.objs, st.roots ++ [b]⟩, by simp [lifeCmd, holdRef, ha, hb]⟩
+
+/-- `idx = Cls(pairs).inv` spelled out: the caller takes `b = a.inv`, then lets go of `a` (its only reference
+    to the forward half, or not) and everything unreachable is freed.  Both halves are still there, unchanged, and
+    `b.inv` is `a`: nothing changed for the instance machines, in which instances simply never die -/
+theorem life_keep_only_inv (cmds : List LCmd) (st st1 st2 : Life)
+    (hc : ∀ c ∈ cmds, c.strongOnly = true) (h : lifeRun Life.empty cmds = some st) (a b : Nat) (ha : a ∈ st.roots)
+    (hb : follow st.objs a 1 = some b) (h1 : lifeCmd st (.hold a 1) = some st1) (h2 : lifeCmd st1 (.drop a) = some st2) :
+    b ∈ st2.roots ∧ st2.get a = st.get a ∧ st2.get b = st.get b ∧ follow st2.objs b 1 = some a := by
+  obtain ⟨x, y, e1, e2, e3, e4, e5, e6, e7⟩ := good_run cmds _ st good_empty hc h a ha
+  have hxb : x.peer = b := by simpa [follow, e1, e2] using hb
+  subst hxb
+  have hne : x.peer ≠ a := by
+    intro e
+    rw [e] at e2
+    rw [e1] at e2
+    cases e2
+    cases hx : x.side <;> simp [hx] at e5
+  simp only [lifeCmd, holdRef, ha, if_true, hb, Option.map_some, Option.some.injEq] at h1
+  subst h1
+  have ha1 : a ∈ st.roots ++ [x.peer] := List.mem_append_left _ ha
+  simp only [lifeCmd, ha1, if_true, Option.some.injEq] at h2
+  subst h2
+  have hbr : x.peer ∈ (st.roots ++ [x.peer]).erase a :=
+    (List.mem_erase_of_ne hne).mpr (List.mem_append_right _ (by simp))
+  have rb : Reach ⟨st.objs, (st.roots ++ [x.peer]).erase a⟩ x.peer := .root hbr
+  have ra : Reach ⟨st.objs, (st.roots ++ [x.peer]).erase a⟩ a := by
+    have := Reach.ref rb (h := y) e2 e7
+    rwa [e3] at this
+  have gb := collect_get rb
+  have ga := collect_get ra
+  refine ⟨by rw [collect_roots]; exact hbr, ga, gb, ?_⟩
+  have gb' : getO (collect ⟨st.objs, (st.roots ++ [x.peer]).erase a⟩).objs x.peer = some y := by
+    have := gb; unfold Life.get at this; rw [this]; exact e2
+  have ga' : getO (collect ⟨st.objs, (st.roots ++ [x.peer]).erase a⟩).objs a = some x := by
+    have := ga; unfold Life.get at this; rw [this]; exact e1
+  simp [follow, gb', e3, ga']
+
+/-- the model can tell the difference: with a WEAK back reference (the inverse half stores `weakref.ref(forward)`)
+    the same three commands free the forward half, and `idx.inv` reads a dead reference -/
+theorem life_weak_back_reference_loses_peer :
+    (lifeRun Life.empty [.alloc true false 0, .hold 0 1, .drop 0]).map
+      (fun st => (st.roots, st.get 0, follow st.objs 1 1)) = some ([1], none, none) := by decide
+
+/-! non-vacuity: `idx = ManyToMany(pairs).inv`; `y = OneToOne(pairs).inv.inv` with everything else let go -/
+example : (lifeRun Life.empty [lifeAlloc "ManyToMany" 0, .hold 0 1, .drop 0]).map
+    (fun st => (st.roots, follow st.objs 1 1, follow st.objs 1 2, st.resolve 0)) =
+    some ([1], some 0, some 1, some (0, false)) := by decide
+example : (lifeRun Life.empty [lifeAlloc "OneToOne" 0, lifeAlloc "ManyToMany" 1, .hold 0 2, .drop 0, .drop 2, .hold 0 1,
+    .drop 0]).map (fun st => (st.roots, st.objs.map Option.isSome)) = some ([1], [true, true, false, false]) := by decide
+example : ((((Caller.empty.newReg "ManyToMany").bind fun c => c.keep 0 "i").bind fun c => c.keep 0 "ii").map
+    fun c => (c.held, c.ok)) = some ([(some 0, none)], true) := by decide
 
 end C17
